@@ -99,9 +99,9 @@ add({"name": "FileView_read_block", "file": "dfs/img_fileio.cc",
 add({"name": "FilePresentedBlockwise_read_block", "file": "dfs/img_sdf.cc",
      "anchor": r"std::optional<SectorBuffer> FilePresentedBlockwise::read_block\(unsigned long lba\)",
      "sig": "static opt_SectorBuffer FilePresentedBlockwise_read_block(struct FilePresentedBlockwise *self, unsigned long lba)",
-     "rules": [(r"DFS::SECTOR_BYTES", "SECTOR_BYTES", 4),
+     "rules": [(r"DFS::SECTOR_BYTES", "SECTOR_BYTES", ">=1"),
                (r"std::vector<byte> got = f_\.read\(([^;]*)\);", r"struct bytevec got = FileAccess_read(self->f_, \1);", 1),
-               (r"got\.size\(\)", "got.n", 2), ASSERT(1),
+               (r"got\.size\(\)", "got.n", ">=0"), (r"got\.empty\(\)", "(got.n == 0)", ">=0"), (r"\bassert\(", "VERIF_ASSERT(", ">=0"),
                (NULLOPT_SB[0], NULLOPT_SB[1], 1),
                (r"std::copy\(got\.begin\(\), got\.end\(\), buf\.begin\(\)\);", "bytevec_copy(&got, buf.d);", 1),
                (r"return buf;", "{ opt_SectorBuffer some_; some_.has = 1; some_.val = buf; return some_; }", 1)]})
@@ -286,13 +286,14 @@ add({"name": "extract_files_basename", "file": "dfs/cmd_extract_files.cc",
      "rules": [(r"const string output_origname\(string\(1, entry\.directory\(\)\) \+ \"\.\" \+ rtrim\(entry\.name\(\)\)\);",
                 "const struct cstr output_origname = cstr_dir_dot_name(CatalogEntry_directory(entry), cstr_rtrim(CatalogEntry_name(entry)));", 1),
                (r"string output_basename;", "struct cstr output_basename; output_basename.n = 0;", 1),
-               (r"entry\.directory\(\) == ctx\.current_directory", "CatalogEntry_directory(entry) == current_directory", 1),
                (r"output_basename = rtrim\(entry\.name\(\)\);", "output_basename = cstr_rtrim(CatalogEntry_name(entry));", 1),
                (r"output_basename = string\(1, entry\.directory\(\)\) \+ \"\.\" \+ rtrim\(entry\.name\(\)\);",
                 "output_basename = cstr_dir_dot_name(CatalogEntry_directory(entry), cstr_rtrim(CatalogEntry_name(entry)));", 1),
-               (r"output_basename\.find\('/'\) != string::npos", "cstr_has_char(&output_basename, '/')", 1),
-               (r'output_basename == "\."', 'cstr_is(&output_basename, ".")', 1),
-               (r'output_basename == "\.\."', 'cstr_is(&output_basename, "..")', 1),
+               (r"entry\.directory\(\)", "CatalogEntry_directory(entry)", ">=1"), (r"ctx\.current_directory", "current_directory", ">=1"),
+               (r"output_basename\.find\('/'\) != string::npos", "cstr_has_char(&output_basename, '/')", ">=0"),
+               (r"output_basename\.front\(\)", "cstr_front(&output_basename)", ">=0"), (r"output_basename\.empty\(\)", "(output_basename.n == 0)", ">=0"),
+               (r'output_basename == "\."', 'cstr_is(&output_basename, ".")', ">=0"),
+               (r'output_basename == "\.\."', 'cstr_is(&output_basename, "..")', ">=0"),
                (r'std::cerr << "refusing to extract " << output_origname\s*<< ": it has no usable name inside " << dest_dir << "\\n";', "g_diag++;  /* diagnostic text dropped */", 1),
                (r"const string output_body_file = dest_dir \+ output_basename;", "/* output_body_file = dest_dir + output_basename: see mon_create_file */", 1)],
      "dropped": ["diagnostic text"]})
@@ -685,14 +686,14 @@ add({"name": "create_inf_file", "file": "dfs/cmd_extract_files.cc",
      "rules": [(r"DFS::sign_extend\(", "sign_extend(", 2),
                (r"entry\.load_address\(\)", "CatalogEntry_load_address(entry)", 1), (r"entry\.exec_address\(\)", "CatalogEntry_exec_address(entry)", 1),
                (r"std::ofstream inf_file\(name, std::ofstream::out\);", "os_init(inf_file); inf_open(inf_file);  /* the ofstream is opened on the given name */", 1),
-               (r"!inf_file\.good\(\)", "inf_file->bad", ">=1"),
+               (r"!inf_file\.good\(\)", "inf_file->bad", ">=0"),
                (r"std::cerr << [^;]*;", "g_diag++;  /* diagnostic text dropped */", ">=0"),
                (r"using std::setw;", "", 1), (r"using std::setfill;", "", 1),
                (r"entry\.directory\(\)", "CatalogEntry_directory(entry)", 1), (r"entry\.name\(\)", "CSTR(CatalogEntry_name(entry))", 1),
                (r"entry\.is_locked\(\)", "CatalogEntry_is_locked(entry)", 1), (r"entry\.file_length\(\)", "CatalogEntry_file_length(entry)", 1),
                ("OSTREAM_CHAIN", "inf_file", 2),
                (r"inf_file\.close\(\);", "inf_close(inf_file);", 1),
-               (r"return inf_file\.good\(\);", "return !inf_file->bad;", 1)],
+               (r"\binf_file\.good\(\)", "(!inf_file->bad)", ">=0")],
      "dropped": ["diagnostic text", "the host file name"]})
 
 # ---- cmd_extract_files.cc (C11: a host file being created by extract-files) --------------------------------------------
@@ -960,6 +961,16 @@ add({"name": "CatalogFragment_ctor", "file": "dfs/dfs_catalog.cc",
      "post": "#undef sequence_number_\n#undef position_of_last_catalog_entry_\n#undef boot_\n#undef total_sectors_\n#undef disc_format_\n",
      "rules": [(r"const DFS::byte title_initial\(names\[0\]\);", "const byte title_initial = names->d[0];", 1),
                (r"\b(names|metadata)\[", r"\1->d[", ">=1"), (r"BootSetting::(\w+)", r"BootSetting_\1", ">=4"), (r"Format::(\w+)", r"Format_\1", ">=1")]})
+
+# ---- dfs_filesystem.cc (C14: where sector-map / extract-unused stop) ------------------------------------------------------
+add({"name": "FileSystem_disc_sector_count", "file": "dfs/dfs_filesystem.cc", "anchor": r"sector_count_type FileSystem::disc_sector_count\(\) const",
+     "sig": "static sector_count_type FileSystem_disc_sector_count(const struct FileSystemM *self)",
+     "rules": [(r"disc_format\(\) == DFS::Format::(\w+)", r"self->disc_format == Format_\1", 1),
+               (r"geometry_\.total_sectors\(\)", "Geometry_total_sectors(&self->geometry_)", ">=0"),
+               (r"for \(const auto& vol : volumes_\)\s*return ([^;]*);", r"if (self->volumes_n > 0) return \1;  /* the first volume */", 1),
+               (r"vol\.second->root\(\)\.total_sectors\(\)", "self->first_volume_root_total_sectors", ">=0"),
+               (r"vol\.second->file_storage_space\(\)", "self->first_volume_file_storage_space", ">=0"),
+               (r'throw BadFileSystem\("[^"]*"\);', "{ VERIF_THROW(BadFileSystem, 0); return 0; }", 1)]})
 
 # ---- cmd_cat.cc (C02: "current directory first, then by directory and name, case-insensitively") ---------------------
 add({"name": "cat_mapdir", "file": "dfs/cmd_cat.cc", "anchor": r"\[&ctx\] \(char dir\) -> char",
